@@ -20,13 +20,13 @@ def _asm(pre, lines, opts, variant='plain'):
     return o, core.get('a.p')
 
 
-def run_ok(pre, items, opts, org, sigf, unit=1, fixed=0):
+def run_ok(pre, items, opts, org, sigf, unit=1, fixed=0, slot=SLOT):
     """items expected to assemble. Returns list of (item, R)."""
     out = []
     lines = []
     for k, it in enumerate(items):
-        if not fixed:
-            lines.append('\t%s' % org(k * SLOT))
+        if not fixed and 'at' not in it:
+            lines.append('\t%s' % org(k * slot))
         lines.append(it['line'])
     o, p = _asm(pre, lines, opts)
     ck = core.crashkind(o)
@@ -39,7 +39,7 @@ def run_ok(pre, items, opts, org, sigf, unit=1, fixed=0):
             m = re.search(r'(error|fatal)[^:]*: *(.*)', msg)
             return [(it, core.R(False, 'rejected', 'rejected/%s' % sigf(it), 'valid statement rejected (%s): %s  [setup: %s]' % (m.group(2)[:60] if m else 'rc=%s' % o.rc, it['line'].strip(), '; '.join(l.strip() for l in pre[1:]))))]
         h = len(items) // 2
-        return run_ok(pre, items[:h], opts, org, sigf, unit, fixed) + run_ok(pre, items[h:], opts, org, sigf, unit, fixed)
+        return run_ok(pre, items[:h], opts, org, sigf, unit, fixed, slot) + run_ok(pre, items[h:], opts, org, sigf, unit, fixed, slot)
     recs = {}
     for r in pfile.data_records(pfile.read(p)):
         recs.setdefault(r.start, b'')
@@ -53,10 +53,10 @@ def run_ok(pre, items, opts, org, sigf, unit=1, fixed=0):
                 it = items[0]
                 return [(it, core.R(False, 'value', 'value/%s' % sigf(it), '%s  emits %d bytes (%s), model %s' % (it['line'].strip(), len(allb), allb.hex(), it['want'])))]
             h = len(items) // 2
-            return run_ok(pre, items[:h], opts, org, sigf, unit, fixed) + run_ok(pre, items[h:], opts, org, sigf, unit, fixed)
-        recs = {k * SLOT // unit: allb[k * fixed:(k + 1) * fixed] for k in range(len(items))}
+            return run_ok(pre, items[:h], opts, org, sigf, unit, fixed, slot) + run_ok(pre, items[h:], opts, org, sigf, unit, fixed, slot)
+        recs = {k * slot // unit: allb[k * fixed:(k + 1) * fixed] for k in range(len(items))}
     for k, it in enumerate(items):
-        got = recs.get(k * SLOT // unit)
+        got = recs.get(it['at'] if 'at' in it else k * slot // unit)
         gh = got.hex() if got is not None else None
         want = it['want'] if isinstance(it['want'], list) else [it['want']]
         if gh is None and '' in want:
@@ -82,12 +82,18 @@ def run_err(pre, items, opts, sigf):
     msg = (o.out + o.err).decode('latin-1')
     named = set(int(m.group(1)) for m in re.finditer(r'a\.asm\((\d+)\)[^\n]*(?:error|fatal)', msg))
     out = []
-    base = len(pre)
+    lineno = len(pre)
     for k, it in enumerate(items):
-        if (base + k + 1) in named and p is None and o.rc in (2, 3):
+        nl = it['line'].count('\n') + 1
+        mine = set(range(lineno + 1, lineno + nl + 1))     # an item may span several lines (own ORG)
+        lineno += nl
+        if (mine & named) and p is None and o.rc in (2, 3):
             out.append((it, core.R(True, 'rejected-as-documented', states=[sigf(it)])))
-        elif (base + k + 1) in named:
+        elif mine & named:
             out.append((it, core.R(False, 'err-status', 'err-status/%s' % sigf(it), 'error reported but rc=%s / code file exists=%s: %s' % (o.rc, p is not None, it['line'].strip()))))
+        elif len(items) > 1:
+            # errors that are only detected in a later pass are cut off by the pass-1 errors of the neighbours: judge alone
+            out.append(run_err(pre, [it], opts, sigf)[0])
         else:
             out.append((it, core.R(False, 'err-missing', 'accepted/%s' % sigf(it), 'no error reported for: %s  [setup: %s]' % (it['line'].strip(), '; '.join(l.strip() for l in pre[1:])))))
     return out
@@ -95,12 +101,13 @@ def run_err(pre, items, opts, sigf):
 
 def evaluate_batch(case, org, sigf, unit=1):
     fixed = case.get('fixed', 0)
+    slot = case.get('slot', SLOT)
     """case = {'k':'batch', 'pre':[...], 'opts':[...], 'items':[...]}  or a single item with its own pre/opts ('k':'one')"""
     if case['k'] == 'one':
         it = case
         if it['want'] == 'ERR':
             return run_err(it['pre'], [it], it.get('opts', []), sigf)[0][1]
-        return run_ok(it['pre'], [it], it.get('opts', []), org, sigf, unit, fixed)[0][1]
+        return run_ok(it['pre'], [it], it.get('opts', []), org, sigf, unit, fixed, slot)[0][1]
     pre, opts = case['pre'], case.get('opts', [])
     items = []
     for it in case['items']:
@@ -110,21 +117,25 @@ def evaluate_batch(case, org, sigf, unit=1):
         it['opts'] = opts
         if fixed:
             it['fixed'] = fixed
+        if slot != SLOT:
+            it['slot'] = slot
         items.append(it)
     ok = [it for it in items if it['want'] != 'ERR']
     er = [it for it in items if it['want'] == 'ERR']
     res = []
     if ok:
-        res += run_ok(pre, ok, opts, org, sigf, unit, fixed)
+        res += run_ok(pre, ok, opts, org, sigf, unit, fixed, slot)
     if er:
         res += run_err(pre, er, opts, sigf)
     return res
 
 
-def batches(pre, opts, items, size=300, fixed=0):
+def batches(pre, opts, items, size=300, fixed=0, slot=None):
     items = list(items)
     for i in range(0, len(items), size):
         b = {'k': 'batch', 'pre': pre, 'opts': opts, 'items': items[i:i + size]}
         if fixed:
             b['fixed'] = fixed
+        if slot:
+            b['slot'] = slot
         yield b
